@@ -94,6 +94,10 @@ class C15(vlib.Check):
                 self.count("bad-input:" + bk)
             yield {"t": "batch", "files": files, "bad": bad, "order": order, "opts": o, "mode": mode[0], "workers": mode[1],
                    "names": ["plain", "proto", "mixed", "rotated"][k % 4], "badkinds": badkinds}
+        # every input of the batch fails: nothing to collect - the run still ends normally and writes no database
+        self.count("mode:all-inputs-fail")
+        yield {"t": "batch", "files": rng.sample(refs, 3), "bad": [0, 1, 2], "order": [2, 0, 1], "opts": {"bits": 1024, "level": 2, "first": 2, "counts": False},
+               "mode": "serial", "workers": 1, "names": "plain", "badkinds": {"0": "garbage", "1": "missing", "2": "empty"}}
         # output files under the save option, both batch routes (fingerprints from SDF files, conformers from a SMILES file):
         # some outputs exist before the run (valid or stale), overwrite on / off, one failing input
         for k in range(6 if self.tier == "quick" else 40):
